@@ -547,7 +547,9 @@ def detector_strategy(draw, ctx, kinds=("field", "phasor", "energy", "energy_sli
             "seed": draw(st.integers(0, 2**31 - 1))}
     if kind in ("field", "phasor"):
         sel = draw(st.lists(st.sampled_from(COMPS), min_size=1, max_size=6, unique=True))
-        case["components"] = [c for c in COMPS if c in sel]
+        # the user's listing order is free (records are stored in canonical Ex..Hz order whatever the listing);
+        # half of the cases keep the drawn, generally non-canonical order
+        case["components"] = sel if draw(st.booleans()) else [c for c in COMPS if c in sel]
     if kind == "phasor":
         case["nfreq"] = draw(st.integers(1, 2))
         case["T"] = 1
